@@ -18,6 +18,7 @@ RULE = ("same (scheme, configuration, key, database) generator as C01 (configura
         "and re-serializes to the same bytes for key, token, EDB, result; (2) a 'server' built only from the JSON round-trip of the "
         "config through the by-name loader, EDB bytes and token bytes returns DB.get(w, empty) after result serialization; "
         "(2b) for every fifth case the same server runs in ANOTHER PROCESS (fresh interpreter, different hash seed, OS entropy); "
+        "(2c) for 8 schemes (not SSE-2) a keyword contained in 2^16-1 / 2^16 / 2^16+1 documents goes through the same wire formats; "
         "(3) a fresh scheme instance with the key reloaded from bytes regenerates byte-identical tokens. Non-trivial = config "
         "differs from the default in a width-bearing field, or some result is non-empty with >= 2 identifiers; distinct = distinct "
         "(scheme, config, sorted length profile, id layout).")
@@ -180,6 +181,7 @@ def body(case, res):
 
 def shards(tier):
     out = [{"kind": "hyp", "scheme": s, "i": 0} for s in S.SCHEMES]
+    out += [{"kind": "huge", "scheme": s} for s in SP.HUGE_SCHEMES]
     if tier == "thorough":
         out += [{"kind": "hyp", "scheme": s, "i": 1} for s in S.SCHEMES]
     return out
@@ -187,6 +189,18 @@ def shards(tier):
 
 def run_shard(spec, seed, tier):
     res = ShardResult()
+    if spec["kind"] == "huge":
+        # a posting list of 2**16 - 1 / 2**16 / 2**16 + 1 identifiers through every wire format
+        first = {}
+        for case in SP.huge_cases(spec["scheme"], tier, seed % 100000):
+            case["process_boundary"] = False
+            try:
+                body(case, res)
+            except Violation as v:
+                first.setdefault(v.bucket, (case, str(v)))
+        for bucket, (case, msg) in first.items():
+            res.add_violation(case, msg, bucket)
+        return res
     n = 80 if tier == "quick" else 750
     if spec["scheme"] == "CGKO06.SSE2":
         n = n // 2
